@@ -9,6 +9,7 @@ Ops of C10.
   c10.decodeInto [ty, val cur, json]         → ok val                    DecodeCustom into the current destination value
   c10.claims.enc [claims]                    → ok bytes | err            encodeClaims
   c10.claims.rt  [claims]                    → ok claims | err           encodeClaims, then parseClaims
+  c10.f64int     [int bits, bool unsigned, arr [kind, neg, m, e]] → ok int | err   a Go float64 into an integer kind
   c10.int        [int bits, bool unsigned, str text] → ok int | err      json.Number into an integer kind
 (`nd.decode` / `nd.encode` are in Drive.C04.)
 -/
@@ -32,6 +33,12 @@ def ops : OpTable := [
     (do let b ← encodeClaims (Claims.ofWire (arg a 0))
         let c ← parseClaims b
         pure c.toWire : PO Wire).toOp),
+  ("c10.f64int", fun a =>
+    let bits := (arg a 0).asNat
+    let x := F64.ofWire (arg a 2)
+    Prog.ret (if (arg a 1).asBool
+      then ((decodeF64Uint bits x).bind (fun n => .ok (Wire.int n))).toWire
+      else ((decodeF64Int bits x).bind (fun i => .ok (Wire.int i))).toWire)),
   ("c10.int", fun a =>
     let bits := (arg a 0).asNat
     let text := (arg a 2).asStr
